@@ -207,6 +207,7 @@ def check(case):
         if exc0 is not None:
             return r.fail("crash:%s" % type(exc0).__name__, "first fit of the used selector: %r" % exc0)
         r.count("fits_on_used_selector")
+        sel.query_all(s, Xo)  # the used selector was also queried
         # the caller refills the same array objects in place and passes them again
         Xo[...] = X
         X = Xo
